@@ -56,9 +56,34 @@ type Case struct {
 
 // CallObs is what one call returned.
 type CallObs struct {
-	K   string `json:"k"` // ok | err | panic
-	Cls string `json:"cls,omitempty"`
-	Msg string `json:"msg,omitempty"`
+	K     string   `json:"k"` // ok | err | panic
+	Cls   string   `json:"cls,omitempty"`
+	Msg   string   `json:"msg,omitempty"`
+	State []string `json:"state,omitempty"` // canonical snapshot of the builder after the call (snap.go)
+	Ord   []string `json:"ord,omitempty"`   // Workflow Compile: the nodes whose deferred inputs it consumed
+	Gone  []string `json:"-"`               // State of the previous call minus State (multiset)
+	New   []string `json:"-"`               // State minus State of the previous call
+}
+
+// msDiff: multiset differences a\b and b\a of two sorted lists
+func msDiff(a, b []string) (gone, added []string) {
+	i, j := 0, 0
+	for i < len(a) && j < len(b) {
+		switch {
+		case a[i] == b[j]:
+			i++
+			j++
+		case a[i] < b[j]:
+			gone = append(gone, a[i])
+			i++
+		default:
+			added = append(added, b[j])
+			j++
+		}
+	}
+	gone = append(gone, a[i:]...)
+	added = append(added, b[j:]...)
+	return
 }
 
 // ---------------------------------------------------------------- value universes
@@ -192,6 +217,8 @@ func invWS(r compose.Runnable[WS, WS]) invoker {
 // frontEnd applies one call; a successful Compile also yields an invoker.
 type frontEnd interface {
 	apply(c *Call) (error, invoker)
+	snapshot() []string          // canonical state (snap.go)
+	pendingInputs() map[string]int // Workflow: deferred inputs per node (nil otherwise)
 }
 
 func nodeOpts[T any](needState bool, nodeKey string, useNodeKey bool) []compose.GraphAddNodeOpt {
@@ -496,20 +523,38 @@ func optKey(c *Call) string { return fmt.Sprintf("%s/%d", c.Trigger, c.MaxSteps)
 func execute(c *Case, snapshot bool) execResult {
 	fe := newFE(c)
 	res := execResult{intact: true}
+	prevState := fe.snapshot()
 	var runs []*compiled
 	for i := range c.Calls {
 		call := &c.Calls[i]
 		var err error
 		var inv invoker
+		before := fe.pendingInputs()
 		p := lib.Recover(func() { err, inv = fe.apply(call) })
+		var o CallObs
 		switch {
 		case p != nil:
-			res.obs = append(res.obs, CallObs{K: "panic", Msg: fmt.Sprint(p)})
+			o = CallObs{K: "panic", Msg: fmt.Sprint(p)}
 		case err != nil:
-			res.obs = append(res.obs, CallObs{K: "err", Cls: classify(err), Msg: err.Error()})
+			o = CallObs{K: "err", Cls: classify(err), Msg: err.Error()}
 		default:
-			res.obs = append(res.obs, CallObs{K: "ok"})
+			o = CallObs{K: "ok"}
 		}
+		if sp := lib.Recover(func() { o.State = fe.snapshot() }); sp != nil {
+			o.State = []string{"snapshot-panic:" + fmt.Sprint(sp)}
+		}
+		if call.Op == "compile" && before != nil {
+			after := fe.pendingInputs()
+			for k, n := range before {
+				if n > 0 && after[k] == 0 {
+					o.Ord = append(o.Ord, k)
+				}
+			}
+			sort.Strings(o.Ord)
+		}
+		o.Gone, o.New = msDiff(prevState, o.State)
+		prevState = o.State
+		res.obs = append(res.obs, o)
 		if inv != nil && snapshot {
 			cr := &compiled{at: i, opts: optKey(call), inv: inv}
 			for k := 0; k < nInputs; k++ {
